@@ -10,6 +10,7 @@
 package main
 
 import (
+	"context"
 	"database/sql"
 	"encoding/json"
 	"errors"
@@ -154,6 +155,10 @@ type Op struct {
 
 type Input struct {
 	Seed   []UserSpec `json:"seed"` // database state before: these users are created first (not recorded)
+	// History of the *gorm.DB handle before the operation: calls made on the SAME handle whose
+	// results are discarded (tosql | dryrun | skipdef | session | ctx | prep). They send no write
+	// and must not change how the operation runs ("with default settings").
+	Pre    []string   `json:"pre,omitempty"`
 	Op     Op         `json:"op"`
 	DFault int        `json:"dfault"` // index of the failing driver operation (-1 none)
 	HFault int        `json:"hfault"` // index of the failing hook invocation (-1 none)
@@ -218,9 +223,21 @@ func getEnv() *env {
 	os.Remove(path)
 	dsn := "file:" + path + "?_busy_timeout=2000&_synchronous=0&_journal_mode=MEMORY"
 	sqlDB, rec := recdrv.Open(dsn)
+	db := openHandle(sqlDB)
+	lib.Must(db.AutoMigrate(&Company{}, &User{}, &Profile{}, &Pet{}, &Toy{}, &Language{}))
+	fresh, err := sql.Open("c05fresh", dsn)
+	lib.Must(err)
+	plain, err := gorm.Open(sqlite.Dialector{Conn: fresh}, &gorm.Config{Logger: logger.Discard})
+	lib.Must(err)
+	theEnv = &env{db: db, plain: plain, rec: rec, sqlDB: sqlDB, fresh: fresh}
+	return theEnv
+}
+
+// openHandle opens a new *gorm.DB (default settings) on the pool. Every run gets its own, so the
+// history of a handle is exactly the Pre steps of the case.
+func openHandle(sqlDB *sql.DB) *gorm.DB {
 	db, err := gorm.Open(sqlite.Dialector{Conn: sqlDB}, &gorm.Config{Logger: logger.Discard})
 	lib.Must(err)
-	lib.Must(db.AutoMigrate(&Company{}, &User{}, &Profile{}, &Pet{}, &Toy{}, &Language{}))
 	// boundaries of the callbacks that invoke hooks (public callback API; the markers do nothing else)
 	lib.Must(db.Callback().Create().Before("gorm:before_create").Register("verif:before_create", mark("before_create")))
 	lib.Must(db.Callback().Create().Before("gorm:after_create").Register("verif:after_create", mark("after_create")))
@@ -228,12 +245,28 @@ func getEnv() *env {
 	lib.Must(db.Callback().Update().Before("gorm:after_update").Register("verif:after_update", mark("after_update")))
 	lib.Must(db.Callback().Delete().Before("gorm:before_delete").Register("verif:before_delete", mark("before_delete")))
 	lib.Must(db.Callback().Delete().Before("gorm:after_delete").Register("verif:after_delete", mark("after_delete")))
-	fresh, err := sql.Open("c05fresh", dsn)
-	lib.Must(err)
-	plain, err := gorm.Open(sqlite.Dialector{Conn: fresh}, &gorm.Config{Logger: logger.Discard})
-	lib.Must(err)
-	theEnv = &env{db: db, plain: plain, rec: rec, sqlDB: sqlDB, fresh: fresh}
-	return theEnv
+	return db
+}
+
+// history runs the Pre steps on the handle and throws their results away.
+func history(db *gorm.DB, pre []string) {
+	for _, p := range pre {
+		switch p {
+		case "tosql":
+			_ = db.ToSQL(func(tx *gorm.DB) *gorm.DB { return tx.Model(&User{}).Where("id = ?", 1).Find(&[]User{}) })
+		case "dryrun":
+			_ = db.Session(&gorm.Session{DryRun: true}).Create(&User{Name: "dry"})
+		case "skipdef":
+			var n int64
+			_ = db.Session(&gorm.Session{SkipDefaultTransaction: true}).Model(&User{}).Count(&n)
+		case "session":
+			_ = db.Session(&gorm.Session{})
+		case "ctx":
+			_ = db.WithContext(context.Background())
+		case "prep":
+			_ = db.Session(&gorm.Session{PrepareStmt: true})
+		}
+	}
 }
 
 func dumpAll(fresh *sql.DB) string {
@@ -338,6 +371,8 @@ func doOp(db *gorm.DB, op Op) error {
 func runOnce(in Input, refDumps []string) (Observed, []string) {
 	e := getEnv()
 	reset(e, in.Seed)
+	db := openHandle(e.sqlDB)
+	history(db, in.Pre)
 	st := &runState{dfault: in.DFault, hfault: in.HFault, fresh: e.fresh, wantDumps: refDumps == nil}
 	st.dumps = []string{dumpAll(e.fresh)}
 	e.rec.Reset()
@@ -362,7 +397,7 @@ func runOnce(in Input, refDumps []string) (Observed, []string) {
 		}
 	}
 	cur = st
-	err := doOp(e.db, in.Op)
+	err := doOp(db, in.Op)
 	cur = nil
 	e.rec.Fault, e.rec.After = nil, nil
 	var o Observed
@@ -562,6 +597,9 @@ func (g *gen) input() Input {
 		op.FullSave = true
 	}
 	in.Op = op
+	for i := r.Pick3(); i > 0; i-- {
+		in.Pre = append(in.Pre, lib.Pick(r, []string{"tosql", "dryrun", "skipdef", "session", "ctx", "prep"}))
+	}
 	return in
 }
 
@@ -613,7 +651,7 @@ func sig(in Input) string {
 
 func shape(in Input, free Observed) string {
 	var sb strings.Builder
-	fmt.Fprintf(&sb, "%s fs=%v sel=%v |", in.Op.Kind, in.Op.FullSave, in.Op.Select)
+	fmt.Fprintf(&sb, "%v %s fs=%v sel=%v |", in.Pre, in.Op.Kind, in.Op.FullSave, in.Op.Select)
 	for _, e := range free.Evs {
 		switch e.K {
 		case "op":
@@ -701,6 +739,7 @@ func main() {
 			out.Count("hook_invocations", fmt.Sprint(nhooks))
 			out.Count("pipelines", fmt.Sprint(npipes))
 			out.Count("full_save", fmt.Sprint(in.Op.FullSave))
+			out.Count("history", fmt.Sprint(in.Pre))
 			if o.ErrK == "other" {
 				out.Count("other_error", o.ErrText)
 			}
